@@ -126,6 +126,17 @@ CHECKS = {
               "Open known findings: generic all-at-once variants correct virtual qubit 0; NV multi-pair with another live qubit does not compile."),
         technique="contract-based deductive verification: symbolic execution of the emitted correction code on the real executor (symbolic Bell states), exact Pauli algebra, finite post-processing table",
         design_ref="5.C10"),
+    "C03": dict(
+        category="proof",
+        text=("Translation validation per program schema, for all literal values: a structured source program is rendered to text (literals as decimal holes, macros, argument "
+              "brackets) and built as IR, assembled by the real parse_text_subroutine / assemble_subroutine, executed on the real executor and compared with a direct "
+              "source-level interpretation (specs/asm_source.py): registers named by the source, arrays, host-visible returns, allocated qubits; structural clauses: "
+              "source instructions kept in order, only `set <unnamed R register> <literal>` inserted, every branch lands on the (expansion of the) instruction after its label. "
+              "Eleven schemas + macro obligations (labels at index 0 / consecutive / past the end / around inserted sets, literals in every value position incl. array "
+              "indices and slice bounds, 15 and 16+ named registers, prefix-related macro keys). The quantifier over program SHAPES is covered by the schema list, not by an "
+              "unbounded proof. Two defects found and fixed (scratch register vs. index register; prefix macro keys)."),
+        technique="contract-based deductive verification (translation validation): source-level meaning function vs. real assembler output on the real executor, symbolic literal values through the real text parser (segment strings), z3 LIA",
+        design_ref="5.C03"),
     "C08": dict(
         category="proof",
         text=("Translation validation per program schema, for all data values of the schema: the vanilla program and its real NV transpilation are executed on the real "
